@@ -135,6 +135,7 @@ class Interp:
         self.loop_counter = []
         self.interpret_all = interpret_all
         self.noop_attr_calls = {"logger", "logging", "warnings"}
+        self.strict_standins = os.environ.get("PYVC_STRICT_STANDINS", "1") != "0"
         self.set_order_nondet = os.environ.get("PYVC_SET_ORDER", "1") != "0"   # True: iterating a native set forks over every order (C14 hash-seed independence)
         self.heap_writes = []  # (SObj, field) of every attribute store on a symbolic heap object
         self.called = set()  # (rel, qualname) of every repo function interpreted on this path
@@ -515,6 +516,10 @@ class Interp:
                     return self._bind_class_attr(raw, obj, cls)
             if name == "__class__":
                 return cls
+            if cls is object and not name.startswith("__") and self.strict_standins:
+                # a pure stand-in (SObj(object, ...)) models only the fields the scenario gave it: reading another one is a
+                # gap of the scenario, not an AttributeError of the program (exit 2, never a violation or a refusal)
+                raise Undecided(f"stand-in object {obj.name!r} has no field {name!r} (scenario does not model it)")
             raise PyRaise(AttributeError(f"'{cls.__name__ if cls else '?'}' object has no attribute '{name}'"))
         if isinstance(obj, Sym):
             m = METHODS.get((type(obj), name))
